@@ -1473,6 +1473,7 @@ pub fn run(opts: &Opts) -> Report {
     {
         use crate::facets::dynwrap as dw;
         let vals = dw::scalars();
+        dw::complement_with_one_sided(&mut rep);
         dw::transparency(&mut rep, "operand order", &["a != b", "!(a == b)", "b != a", "a != b == false", "a == b != true"], &vals, &vals);
     }
     equivalence_groups(opts, &mut rep);
